@@ -76,14 +76,33 @@ def c03(run):
     out = os.path.join(BUILD, "rec-C03-f0.ndjson")
     summary, _ = run_harness(["record", "C03", asts, out, str(10 if run.tier == "thorough" else 6)], env=run.known_env(), timeout=6000)
     run.add_summary("record_C03_f0", summary, traces=False)
-    res = run_tlc("TV_Scan", "tv/TV_Scan.tla", "tv/TV_Scan.cfg", env=dict(run.known_env(), TRACE=out), timeout=6000, heap="12g")
-    run.add_tlc("TV_Scan", res, "I->S: applications of basic-fragment rules with literals from all 365 cardinals and matrices over all 26 features, on words over the rule's own literals, recorded from the "
-                                "real interpreter (result + per-iteration events) and validated by TLC against Scan!RunScanF")
     nrec = summary["extra"].get("records", 0)
-    rejected = set(json.loads(x)["rejected_record"] for x in res.printed if isinstance(x, str) and "rejected_record" in x)
-    skipped = set(json.loads(x)["skipped_record"] for x in res.printed if isinstance(x, str) and "skipped_record" in x)
-    if res.distinct != 2 * nrec:
-        raise ToolError("TV_Scan examined %d states for %d records" % (res.distinct, nrec))
+    # TLC holds the deserialised records of one run in memory: large recordings are validated in parts
+    CHUNK = 30000
+    parts = [out]
+    if nrec > CHUNK:
+        parts, fh, n = [], None, 0
+        for line in open(out):
+            if n % CHUNK == 0:
+                if fh: fh.close()
+                parts.append("%s.part%d" % (out, len(parts)))
+                fh = open(parts[-1], "w")
+            fh.write(line); n += 1
+        if fh: fh.close()
+    rejected, skipped, distinct = set(), set(), 0
+    for k, part in enumerate(parts):
+        name = "TV_Scan" if len(parts) == 1 else "TV_Scan_part%d" % k
+        res = run_tlc(name, "tv/TV_Scan.tla", "tv/TV_Scan.cfg", env=dict(run.known_env(), TRACE=part), timeout=6000, heap="12g")
+        run.add_tlc(name, res, "I->S: applications of basic-fragment rules with literals from all 365 cardinals and matrices over all 26 features, on words over the rule's own literals, recorded from the "
+                               "real interpreter (result + per-iteration events) and validated by TLC against Scan!RunScanF")
+        rejected |= set(json.loads(x)["rejected_record"] for x in res.printed if isinstance(x, str) and "rejected_record" in x)
+        skipped |= set(json.loads(x)["skipped_record"] for x in res.printed if isinstance(x, str) and "skipped_record" in x)
+        distinct += res.distinct
+        if part != out:
+            os.remove(part)
+    if distinct != 2 * nrec:
+        raise ToolError("TV_Scan examined %d states for %d records" % (distinct, nrec))
+    run.cov["jobs"]["TV_Scan"] = run.cov["jobs"].get("TV_Scan") or dict(run.cov["jobs"]["TV_Scan_part0"], parts=len(parts))
     corrupt, bad = set(), []
     for line in open(out + ".meta"):
         m = json.loads(line)
@@ -349,18 +368,34 @@ def c08(run):
     law_pipeline(run, "C08", ["any", "prosonly"], 10 if run.tier == "thorough" else 6)
 
 
+def _split_arrow(rule):
+    """input and the rest of a rule line, split at the first arrow (`>`, `=>`, `->`) that does not close a `<...>` structure; spaces are optional"""
+    depth = 0
+    for i, ch in enumerate(rule):
+        if ch in "<\u27e8":
+            depth += 1
+        elif ch == "\u27e9":
+            depth = max(0, depth - 1)
+        elif ch == ">":
+            if depth > 0:
+                depth -= 1
+                continue
+            j = i - 1 if i > 0 and rule[i - 1] in "=-" else i
+            return rule[:j], rule[i + 1:]
+    return None
+
+
 def _rule_parts(rule):
-    import re
-    m = re.split(r"\s(?:=>|->|>)\s", rule, maxsplit=1)
-    if len(m) < 2:
+    m = _split_arrow(rule)
+    if not m:
         return None
     inp, rest = m[0].strip(), m[1]
     exc = ""
-    for sep in (" | ", " // "):
+    for sep in ("|", "//"):
         if sep in rest:
             rest, exc = rest.split(sep, 1)
             break
-    out, ctx = (rest.split(" / ", 1) + [""])[:2]
+    out, ctx = (rest.split("/", 1) + [""])[:2]
     return {"inp": inp, "out": out.strip(), "ctx": ctx.strip(), "exc": exc.strip()}
 
 
